@@ -931,7 +931,7 @@ class Pregex():
                 pattern = self.__pattern
             if name is not None:
                 if pattern.startswith('(?P'):
-                    pattern = _re.sub('\(\?P<[^>]*>', f'(?P<{name}>', pattern)
+                    pattern = _re.sub('\(\?P<[^>]*>', f'(?P<{name}>', pattern, count=1)
                 else:
                     pattern = f"(?P<{name}>{pattern[1:-1]})"
         else:
